@@ -57,6 +57,23 @@ func genC11(r *Rand) *VariantCase {
 		p.Stmts = st
 		defs = append(defs, extra...)
 	}
+	// the mode given through a name: [BITS MODE3] with MODE3 defined by a chain written top-down or bottom-up
+	if mode == 32 && r.Chance(1, 3) {
+		for i := range p.Stmts {
+			if p.Stmts[i].K == "bits" {
+				chain := []PStmt{{K: "equ", Label: "MODE1", Text: "32", Tag: "EQU"}, {K: "equ", Label: "MODE2", Text: "MODE1", Tag: "EQU"}, {K: "equ", Label: "MODE3", Text: Pick(r, []string{"MODE2", "MODE2*1", "MODE1+MODE2-32"}), Tag: "EQU"}}
+				if r.Bool() {
+					chain[0], chain[2] = chain[2], chain[0]
+				}
+				st := append([]PStmt{}, p.Stmts[:i]...)
+				st = append(st, chain...)
+				st = append(st, PStmt{K: "raw", Text: "[BITS MODE3]", Alt: "[BITS 32]"})
+				st = append(st, p.Stmts[i+1:]...)
+				p.Stmts = st
+				break
+			}
+		}
+	}
 	// a name defined twice: every use stands for the definition in force above it
 	if r.Chance(1, 3) {
 		a, b := Pick(r, []int64{2, 0x7f, -128, 0x100}), Pick(r, []int64{3, 0x80, -129, 0x7f, 0xffff})
